@@ -8,3 +8,5 @@ for c in "$@"; do
 done
 git -C /repo checkout -- . 
 git -C /repo status --short | head -3
+# evidence written while /repo was patched does not describe the unchanged tree: put the committed files back
+git -C /verif checkout -- evidence 2>/dev/null
